@@ -13467,6 +13467,19 @@ pattern:
 					break class
 
 				case '\\':
+					tail := pattern[i:]
+
+					if isUnicode && (strings.HasPrefix(tail, "p{") || strings.HasPrefix(tail, "P{")) {
+						if p.options.unsupportedJSFeatures.Has(compat.RegexpUnicodePropertyEscapes) {
+							if end := strings.IndexByte(tail, '}'); end >= 0 {
+								what = "Unicode property escapes in regular expressions are not available"
+								r = logger.Range{Loc: logger.Loc{Start: loc.Start + int32(i)}, Len: int32(end) + 2}
+								isUnsupported = true
+								break pattern
+							}
+						}
+					}
+
 					i++ // Skip the escaped character
 				}
 			}
